@@ -87,6 +87,23 @@ class BackendAdapter:
             except Exception as e:
                 gets[skey_tok(k)] = "!" + exc_name(e)
         assert len(c) == len(c.keys())
+        # every public way of reading must tell the same story as c[k]: items(), values(), iteration, `in`
+        try:
+            via_items = {skey_tok(k): val_tok(v) for k, v in c.items()}
+        except Exception as e:
+            via_items = {"!items": exc_name(e)}
+        try:
+            via_values = sorted(val_tok(v) for v in c.values())
+        except Exception as e:
+            via_values = ["!values " + exc_name(e)]
+        ok_gets = {k: v for k, v in gets.items() if not v.startswith("!")}
+        if len(ok_gets) == len(gets):
+            if via_items != gets:
+                gets = {"!items() disagrees with []": via_items}
+            elif via_values != sorted(gets.values()):
+                gets = {"!values() disagrees with []": via_values}
+        if sorted(skey_tok(k) for k in iter(c)) != keys or not all(k in c for k in list(c.keys())):
+            keys = ["!iteration/contains disagree with keys()"]
         return {"made": True, "st": st, "keys": keys, "gets": gets}
 
     def observe(self):
